@@ -912,12 +912,15 @@ class CopyMapper(TransformMapper):
             self.rec(expr.matrix.elem_col_indices))
         new_matrix_row_starts = _verify_is_array(
             self.rec(expr.matrix.row_starts))
+        new_matrix_shape = self.rec_size_tuple(expr.matrix.shape)
         if (
                 new_matrix_elem_values is not expr.matrix.elem_values
                 or new_matrix_elem_col_indices is not expr.matrix.elem_col_indices
-                or new_matrix_row_starts is not expr.matrix.row_starts):
+                or new_matrix_row_starts is not expr.matrix.row_starts
+                or new_matrix_shape is not expr.matrix.shape):
             new_matrix = dataclasses.replace(
                 expr.matrix,
+                shape=new_matrix_shape,
                 elem_values=new_matrix_elem_values,
                 elem_col_indices=new_matrix_elem_col_indices,
                 row_starts=new_matrix_row_starts)
@@ -1106,12 +1109,15 @@ class CopyMapperWithExtraArgs(TransformMapperWithExtraArgs[P]):
             self.rec(expr.matrix.elem_col_indices, *args, **kwargs))
         new_matrix_row_starts = _verify_is_array(
             self.rec(expr.matrix.row_starts, *args, **kwargs))
+        new_matrix_shape = self.rec_size_tuple(expr.matrix.shape, *args, **kwargs)
         if (
                 new_matrix_elem_values is not expr.matrix.elem_values
                 or new_matrix_elem_col_indices is not expr.matrix.elem_col_indices
-                or new_matrix_row_starts is not expr.matrix.row_starts):
+                or new_matrix_row_starts is not expr.matrix.row_starts
+                or new_matrix_shape is not expr.matrix.shape):
             new_matrix = dataclasses.replace(
                 expr.matrix,
+                shape=new_matrix_shape,
                 elem_values=new_matrix_elem_values,
                 elem_col_indices=new_matrix_elem_col_indices,
                 row_starts=new_matrix_row_starts)
